@@ -142,13 +142,25 @@ def _call(cgv, cgs, call, state):
     return _val(r)
 
 
+def _arg(state, role, x):
+    """the argument object of a call: a fresh copy, or (histories flagged `same-objects`) one persistent array per role that the
+    caller updates in place between the calls, as an optimisation loop does with its iterate"""
+    if not state.get('same-objects') or x.ndim != 1:
+        return x.copy()
+    buf = state.setdefault('buffers', {}).get((role, x.shape))
+    if buf is None:
+        buf = state['buffers'][(role, x.shape)] = np.empty_like(x)
+    buf[...] = x
+    return buf
+
+
 def _call_raw(cgv, cgs, call, state):
     """executes one call; returns the object handed to the user"""
     k = call[0]
     if k == 'forward':
         _, which, x = call
         cg = cgv if which == 'v' else cgs
-        r = cg.function([UTPM(x.copy()) if x.ndim > 1 else x.copy()])[0]
+        r = cg.function([UTPM(x.copy()) if x.ndim > 1 else _arg(state, 'x', x)])[0]
         state['last'] = which
         return r
     if k == 'pullback':
@@ -157,22 +169,26 @@ def _call_raw(cgv, cgs, call, state):
         cg.pullback([UTPM(s.copy())])
         return cg.independentFunctionList[0].xbar
     if k == 'gradient':
-        return cgs.gradient(call[1].copy())
+        return cgs.gradient(_arg(state, 'x', call[1]))
     if k == 'hessian':
-        return cgs.hessian(call[1].copy())
+        return cgs.hessian(_arg(state, 'x', call[1]))
     if k == 'hess_vec':
-        return cgs.hess_vec(call[1].copy(), call[2].copy())
+        return cgs.hess_vec(_arg(state, 'x', call[1]), _arg(state, 'v', call[2]))
     if k == 'jacobian':
         x = call[1]
-        return cgv.jacobian(UTPM(x.copy()) if x.ndim > 1 else x.copy())
+        return cgv.jacobian(UTPM(x.copy()) if x.ndim > 1 else _arg(state, 'x', x))
     if k == 'jac_vec':
-        return cgv.jac_vec(call[1].copy(), call[2].copy())
+        return cgv.jac_vec(_arg(state, 'x', call[1]), _arg(state, 'v', call[2]))
     if k == 'vec_jac':
-        return cgv.vec_jac(call[1].copy(), call[2].copy())
+        return cgv.vec_jac(_arg(state, 'w', call[1]), _arg(state, 'x', call[2]))
+    if k == 'vec_jac_s':          # the same driver on the scalar-valued graph (the one gradient / hessian / hess_vec use)
+        return cgs.vec_jac(_arg(state, 'w1', call[1]), _arg(state, 'x', call[2]))
+    if k == 'jac_vec_s':
+        return cgs.jac_vec(_arg(state, 'x', call[1]), _arg(state, 'v', call[2]))
     if k == 'vec_hess':
-        return cgv.vec_hess(call[1].copy(), call[2].copy())
+        return cgv.vec_hess(_arg(state, 'w', call[1]), _arg(state, 'x', call[2]))
     if k == 'vec_hess_vec':
-        return cgv.vec_hess_vec(call[1].copy(), call[2].copy(), call[3].copy())
+        return cgv.vec_hess_vec(_arg(state, 'w', call[1]), _arg(state, 'x', call[2]), _arg(state, 'v', call[3]))
     raise KeyError(k)
 
 
@@ -318,7 +334,25 @@ def run_case(ctx, case):
                 hist.append((d, rng.normal(size=m), point(), rng.normal(size=n)))
             fw = None
     # ---- run it, comparing every call with the same call on a fresh graph
-    state = {}
+    state = {'same-objects': bool(rng.random() < 0.5)}
+    if state['same-objects']:
+        # an optimisation loop: every driver once, in random order, always with the same argument objects updated in place
+        seq = DRIVERS + ['vec_jac_s', 'jac_vec_s', 'gradient']
+        for d in [seq[i] for i in rng.permutation(len(seq))]:
+            if d == 'vec_jac_s':
+                hist.append((d, rng.normal(size=1), point()))
+            elif d == 'jac_vec_s':
+                hist.append((d, point(), rng.normal(size=n)))
+            elif d in ('gradient', 'hessian'):
+                hist.append((d, point()))
+            elif d in ('hess_vec', 'jac_vec'):
+                hist.append((d, point(), rng.normal(size=n)))
+            elif d == 'jacobian':
+                hist.append((d, point()))
+            elif d in ('vec_jac', 'vec_hess'):
+                hist.append((d, rng.normal(size=m), point()))
+            elif m == n:
+                hist.append((d, rng.normal(size=m), point(), rng.normal(size=n)))
     prev_kind = 'start'
     last_real = None
     last_fw = None
